@@ -152,6 +152,11 @@ def devOk (rootDev : Option Nat) (dev : Nat) : Bool :=
 
 def inAnc (anc : List Anc) (ino : Nat) : Bool := anc.any (fun a => a.1 == ino)
 
+/-- The depth of a root entry: `Walk::skip_entry` never skips an entry of this depth (`if ent.depth() == 0`)
+and `WalkParallel::visit` creates the root works with it (`DirEntryRaw::from_path(0, path, false)`)
+(source-anchored: bin/check re-extracts both literals from walk.rs). -/
+def rootDepth : Nat := 0
+
 /-- Contents of an entered directory, given: ancestors (innermost first), depth of the directory,
 its path, the root device, its children. -/
 abbrev Contents := List Anc → Nat → Path → Option Nat → List Node → List Out
